@@ -771,8 +771,8 @@ DFGRIriginfo(int32 file_id)
         }
         if (aid == FAIL) {                               /* not found */
             if (gettag == DFTAG_RIG) {                   /* were looking for RIGs */
-                if ((Grread.data[IMAGE].tag == DFTAG_RI) /* file has RIGs */
-                    || (Grread.data[IMAGE].tag == DFTAG_CI))
+                if (Grlastrig != 0                          /* file has RIGs */
+                    || (Grread.data[IMAGE].tag == DFTAG_RI) || (Grread.data[IMAGE].tag == DFTAG_CI))
                     HGOTO_DONE(FAIL); /* no more to return */
                 gettag = DFTAG_RI8;   /* if no RIGs in file, look for RI8s */
             }
